@@ -248,20 +248,30 @@ class World:
             self.extra_budget += 8 * CONTENTS[content].get("steps", 0)
         return {}
 
+    def _prune_dangling(self):
+        """Links whose target an edit removed are removed with it (the properties say nothing
+        about dangling links; the user who deletes a file deletes its aliases)."""
+        for rel, is_dir in list_tree(self.root):
+            full = os.path.join(self.root, rel)
+            if os.path.islink(full) and not os.path.exists(full):
+                REAL["os.unlink"](full)
+
     def op_delete(self, path):
         full = self.p(path)
-        if os.path.isdir(full):
+        if os.path.isdir(full) and not os.path.islink(full):
             shutil.rmtree(full)
         elif os.path.lexists(full):
             REAL["os.unlink"](full)
         else:
             return {"noop": "missing"}
+        self._prune_dangling()
         return {}
 
     def op_rename(self, src, dst, overwrite=False):
         a, b = self.p(src), self.p(dst)
         if overwrite and os.path.isfile(a) and os.path.isfile(b) and a != b:
             REAL["os.replace"](a, b)      # mv old new: the content arrives with its old mtime
+            self._prune_dangling()
             return {"replaced": True}
         if not os.path.lexists(a) or os.path.lexists(b):
             return {"noop": "src_missing_or_dst_exists"}
@@ -270,6 +280,7 @@ class World:
         if not self._parents_ok(dst, True):
             return {"noop": "parent_is_file"}
         REAL["os.rename"](a, b)
+        self._prune_dangling()
         return {}
 
     def op_touch(self, path):
@@ -292,6 +303,18 @@ class World:
         ba, bb = read_bytes(fa), read_bytes(fb)
         write_bytes(fa, bb)
         write_bytes(fb, ba)
+        return {}
+
+    def op_link(self, src, dst, hard=False):
+        """A second name for an existing file: relative symlink or hard link."""
+        a, b = self.p(src), self.p(dst)
+        if not os.path.isfile(a) or os.path.lexists(b) or not self._parents_ok(dst, True):
+            return {"noop": "src_missing_or_dst_exists"}
+        if hard:
+            os.link(a, b)
+        else:
+            os.symlink(os.path.relpath(a, os.path.dirname(b)), b)
+        CTX.counters["link_" + ("hard" if hard else "sym")] += 1
         return {}
 
     def op_mkdir(self, path):
@@ -498,10 +521,18 @@ class World:
             if not os.path.islink(link):
                 os.symlink(self.root, link)
             return (self.base, "link") if sp == "symlink" else (self.outside, link)
+        if sp == "symlink_dotdot":
+            # <base>/ln/link3 -> <top>/outside ; "<base>/ln/link3/../root" is the root for the kernel
+            # (.. of the link TARGET) but not after a purely textual normalisation
+            ln = os.path.join(self.base, "ln")
+            if not os.path.isdir(ln):
+                REAL["os.mkdir"](ln)
+                os.symlink(self.outside, os.path.join(ln, "link3"))
+            return self.base, os.path.join("ln", "link3", "..", name)
         raise KeyError(sp)
 
     def run_process(self, fn, nonce, cwd, fault=None, record_io=False, set_policy="mixed",
-                    walk_policy="shuffled", env=None, new_process=True, read_fault=None):
+                    walk_policy="shuffled", env=None, new_process=True, read_fault=None, walk_nonce=None):
         """Run `fn()` as one simulated codelimit process (new_process=False: one
         more call inside the same long-lived process, library mode)."""
         from codelimit.common.Configuration import Configuration
@@ -517,7 +548,8 @@ class World:
             root_logger.removeHandler(h)
         CTX.set_rng = stream(nonce, "set")
         CTX.set_policy = set_policy
-        CTX.walk_rng = stream(nonce, "walk")
+        CTX.walk_rng = stream(nonce if walk_nonce is None else walk_nonce, "walk")
+        CTX.walk_salt = "%s" % (nonce if walk_nonce is None else walk_nonce)
         CTX.walk_policy = walk_policy
         CTX.io_root = self.base
         CTX.io_plan = dict(fault) if fault else None
@@ -624,7 +656,7 @@ class World:
         return obs
 
     def scan(self, nonce, fault=None, record_io=False, spelling=None, verbose=False,
-             set_policy="mixed", walk_policy="shuffled", env=None, excludes=None, read_fault=None):
+             set_policy="mixed", walk_policy="shuffled", env=None, excludes=None, read_fault=None, walk_nonce=None):
         import codelimit.__main__ as cli
         from pathlib import Path
         cwd, arg = self._spelling(spelling)
@@ -632,7 +664,8 @@ class World:
 
         def fn():
             cli.scan(path=Path(arg), exclude=ex or None, verbose=verbose)
-        obs = self.run_process(fn, nonce, cwd, fault, record_io, set_policy, walk_policy, env, read_fault=read_fault)
+        obs = self.run_process(fn, nonce, cwd, fault, record_io, set_policy, walk_policy, env, read_fault=read_fault,
+                               walk_nonce=walk_nonce)
         obs["cache_bytes_len"] = len(self.cache_bytes() or b"") if os.path.exists(self.cache_file) else None
         return obs
 
